@@ -28,6 +28,7 @@ type Env struct {
 	oldEnv *Env // bindings used under old(...)
 	locals bool // resolve identifiers to the current values of local variables first (loop invariants)
 	depth  int
+	unfold bool // expand the outermost opaque function application (reveal)
 }
 
 func specFail(format string, a ...any) { panic(engineError{"spec: " + fmt.Sprintf(format, a...)}) }
@@ -603,7 +604,7 @@ func (env *Env) call(x *SExpr) SV {
 		if len(x.Args) != pf.NArgs {
 			specFail("%s expects %d arguments", x.Name, pf.NArgs)
 		}
-		if pf.Body == nil {
+		if pf.Body == nil || (pf.Opaque && !env.unfold) {
 			// uninterpreted ghost function over the flattened argument tuples
 			var flat []string
 			for i := range x.Args {
@@ -631,6 +632,7 @@ func (env *Env) call(x *SExpr) SV {
 		sub := *env
 		sub.depth = env.depth + 1
 		sub.locals = false
+		sub.unfold = false
 		sub.vars = map[string]SV{}
 		for i, pn := range pf.Params {
 			sub.vars[pn] = arg(i)
@@ -738,3 +740,32 @@ func (p *Prog) qualified(env *Env, pkgName, name string) (SV, bool) {
 }
 
 var _ = token.NoPos
+
+// reveal f(args): the definitional equation of an opaque pure function at these arguments.
+func (env *Env) reveal(x *SExpr) string {
+	c := env.c()
+	pf, ok := env.x.p.cs.Pures[x.Name]
+	if !ok || !pf.Opaque {
+		specFail("reveal: %s is not an opaque pure function", x.Name)
+	}
+	app := env.eval(x)
+	// bind the arguments once, then expand the body
+	sub := *env
+	sub.vars = map[string]SV{}
+	for k, v := range env.vars {
+		sub.vars[k] = v
+	}
+	args := make([]*SExpr, len(x.Args))
+	for i, a := range x.Args {
+		nm := fmt.Sprintf("reveal_arg_%d", i)
+		sub.vars[nm] = env.eval(a)
+		args[i] = &SExpr{Op: "ident", Name: nm}
+	}
+	sub.unfold = true
+	sub.locals = false
+	body := sub.eval(&SExpr{Op: "call", Name: x.Name, Args: args})
+	if app.isBool {
+		return c.B("(= %s %s)", app.t[0], env.asBool(body, "reveal"))
+	}
+	return c.B("(= %s %s)", app.t[0], env.asInt(body, "reveal"))
+}
